@@ -104,7 +104,8 @@ package node
 //@   ensures[append] len(c.transactionPool) == old(len(c.transactionPool)) + len(txs) && (forall k int :: 0 <= k && k < old(len(c.transactionPool)) ==> __seqeq(c.transactionPool[k], old(c.transactionPool)[k])) && (forall k int :: 0 <= k && k < len(txs) ==> __seqeq(c.transactionPool[old(len(c.transactionPool))+k], txs[k]))
 
 //@ func (c *core) addSelfEvent(otherHead string) error
-//@   requires c != nil && c.hg != nil && c.validator != nil && c.selfBlockSignatures != nil
+//@   safety on
+//@   requires c != nil && c.hg != nil && c.validator != nil && c.validator.Key != nil && c.selfBlockSignatures != nil
 //@   ensures[too-early]       c.hg.Store.LastRound() < old(c.acceptedRound) && !__called("signAndInsertSelfEvent") ==> ret0 == nil && __eq(c.transactionPool, old(c.transactionPool)) && __eq(c.internalTransactionPool, old(c.internalTransactionPool))
 //@   ensures[not-inserted]    !__called("signAndInsertSelfEvent") ==> __eq(c.transactionPool, old(c.transactionPool)) && __eq(c.internalTransactionPool, old(c.internalTransactionPool))
 //@   call signAndInsertSelfEvent assert[handover] __arg(0) == newHead && __eq(newHead.Body.Transactions, old(c.transactionPool)) && __eq(newHead.Body.InternalTransactions, old(c.internalTransactionPool)) && newHead.Body.Index == old(c.seq) + 1 && len(newHead.Body.Parents) == 2 && newHead.Body.Parents[0] == old(c.head) && newHead.Body.Parents[1] == otherHead
